@@ -88,8 +88,8 @@ func refCoerce(t *Ty, v hx.Sexp) (hx.Sexp, bool) {
 		if tag(v) == "enum" {
 			for _, n := range t.Vals {
 				if n == v.List[1].Atom {
-					if nilValued(t.Name, n) {
-						return hx.A("nil"), true // the Go value the schema declares for it
+					if d, ok := declaredGo(t.Name, n); ok {
+						return d, true // the Go value the schema declares for it
 					}
 					return v, true
 				}
@@ -266,6 +266,14 @@ func conformsGo(t *Ty, x hx.Sexp) bool {
 		}
 		return false
 	case "enum":
+		if t.Name == "Unit" {
+			for _, n := range t.Vals {
+				if d, _ := declaredGo(t.Name, n); d.String() == x.String() {
+					return true
+				}
+			}
+			return false
+		}
 		if tag(x) != "enum" {
 			return false
 		}
